@@ -25,7 +25,10 @@ ASSUMPTIONS = [
     "contents of unreferenced triangles, band corners, workspace rows (gbtrf/gbsv fill rows), destroyed inputs and "
     "W/Z/U/Vt columns beyond the returned count are unspecified and not compared",
     "elementary reflectors use the LAPACK Users' Guide storage (v(i)=1 implicit, Q = H1..Hk for QR, Q = Hk^H..H1^H for LQ)",
-    "size-inconsistent variants are only tried when all dimensions of the call are positive (zero dimensions require nothing)",
+    "size-inconsistent variants are only tried when all dimensions of the call are positive (zero dimensions require nothing); in half of "
+    "those calls the one-element-too-short variant is tried for every buffer argument in turn",
+    "a quarter of the embedded matrix operands are 'host' matrices: the block is the top-left corner of a 2-D matrix with more rows and the "
+    "ld keyword is omitted, so that the documented default max(1, X.size[0]) addresses it",
     "invalid option letters are not part of the property and are not tried",
     "gges with a select call-back: the sign of the diagonal of T / of b after the reordering is left to the reference "
     "LAPACK (it is only demanded without select)",
